@@ -217,6 +217,10 @@ def r55(ctx):
     for f in [s for s in cls.body if isinstance(s, FUNC) and s.name in ("inf_retis", "find_blocks", "quick_prob", "permanent_prob", "random_prob", "prob")]:
         for node in [x for x in walk_local(f) if isinstance(x, ast.If)]:
             t = node.test
+            body_, orelse_ = node.body, node.orelse
+            while isinstance(t, ast.UnaryOp) and isinstance(t.op, ast.Not):
+                t = t.operand
+                body_, orelse_ = orelse_, body_
             if not (isinstance(t, ast.Compare) and len(t.ops) == 1):
                 continue
             sides = [t.left, t.comparators[0]]
@@ -241,7 +245,7 @@ def r55(ctx):
                 if isinstance(op, ast.Lt): return sub(b, a, -1)
                 return None
             NEG = {ast.Lt: ast.GtE, ast.LtE: ast.Gt, ast.Gt: ast.LtE, ast.GtE: ast.Lt}
-            for branch, op in ((node.body, t.ops[0]), (node.orelse, NEG.get(type(t.ops[0]), type(None))())):
+            for branch, op in ((body_, t.ops[0]), (orelse_, NEG.get(type(t.ops[0]), type(None))())):
                 h = hs(op) if op is not None else None
                 if h is None or h.get("n", 0) != 1:
                     continue  # this branch does not bound len(A) from below
@@ -272,7 +276,7 @@ def r55(ctx):
                             continue  # other symbols: not a guard for this index
                         n += 1
                         if diff.get(1, 0) >= 0:
-                            ctx.ok(rid, sub_, f"{f.name}: `{short(sub_, 40)}` is evaluated only where `{short(t, 40)}` {'holds' if branch is node.body else 'fails'}, which implies the index is in range")
+                            ctx.ok(rid, sub_, f"{f.name}: `{short(sub_, 40)}` is evaluated only where `{short(t, 40)}` {'holds' if branch is body_ else 'fails'}, which implies the index is in range")
                         else:
                             ctx.bad(rid, node, f"{f.name}: the guard `{short(t, 40)}` lets `{short(sub_, 40)}` be evaluated when len({arr}) equals the index: with every positive ensemble busy and only [0-] idle the idle block is 1x1, the index is out of range (IndexError) and no job can be drawn although a perfect matching exists",
                                     construct=f"bound guard {short(t, 40)} vs index {short(idx, 20)}")
